@@ -276,6 +276,63 @@ def tamper_suite(files: Files, root: W.El, password: str, part: Part, tag: Any) 
         part.viol("unsigned-attribute-change-rejected", f"{tag}: changing xmlns (not part of the signed content) breaks verification", ["tamper", tag, "xmlns"])
 
 
+EDGE_PASSWORDS = [" test ", "test ", "\ttest", "pass word\n", " ", "pwd"]
+LONG_NAMES = ["a" * 253, "b" * 254, "c" * 255, "\u20ac" * 85, "\u00e4" * 127 + "a", "\u00e4" * 127]
+
+
+def boundary_suite(files: Files, part: Part) -> None:
+    """Values at the one-octet length prefix of the signed stream (253, 254, 255 octets, also in multi-byte characters), and
+    passwords with leading / trailing whitespace - through the synchronous AND the asynchronous loader (the one the interface uses)."""
+    import asyncio
+
+    base = models()[7]
+
+    def loaders(path: str, pw: str) -> list[tuple[str, Any]]:
+        return [("sync_load_keyring", lambda: KR.sync_load_keyring(path, pw)), ("load_keyring", lambda: asyncio.run(KR.load_keyring(path, pw)))]
+
+    for name in LONG_NAMES:
+        m = dict(base, project=name)
+        pw = m["password"]
+        root = W.build(m, pw)
+        path = files.write(root)
+        for lname, load in loaders(path, pw):
+            part.evaluations += 1
+            part.nontrivial += 1
+            case = ["boundary", "name", len(name.encode()), lname]
+            try:
+                kr = load()
+            except Exception as exc:  # noqa: BLE001
+                part.viol(exc_sig("genuine-keyring-rejected:long-value", exc), f"{lname}: project name of {len(name.encode())} octets ({len(name)} characters): {exc!r}", case)
+                continue
+            for sg, d in check_loaded(kr, m):
+                part.viol(sg, d, case)
+    for pw in EDGE_PASSWORDS:
+        m = dict(base, password=pw)
+        root = W.build(m, pw)
+        path = files.write(root)
+        for lname, _ in loaders(path, pw):
+            for given in [pw] + [v for v in (pw.strip(), pw + "\n", " " + pw, pw + " ", "\r\n" + pw + "\t") if v != pw]:
+                load = dict(loaders(path, given))[lname]
+                part.evaluations += 1
+                part.nontrivial += 1
+                case = ["boundary", "password", pw, given, lname]
+                try:
+                    kr = load()
+                    ok = True
+                except InvalidSecureConfiguration:
+                    ok = False
+                except Exception as exc:  # noqa: BLE001
+                    part.viol(exc_sig("load-raises-undeclared", exc), f"{lname}({given!r}) on a keyring protected by {pw!r}: {exc!r}", case)
+                    continue
+                if given == pw and not ok:
+                    part.viol(f"genuine-keyring-rejected:password-with-whitespace:{lname}", f"{lname}: keyring protected by {pw!r} refused for exactly that password", case)
+                elif given != pw and ok:
+                    part.viol(f"wrong-password-accepted:{lname}", f"{lname}: keyring protected by {pw!r} loads with {given!r}", case)
+                elif ok:
+                    for sg, d in check_loaded(kr, m):
+                        part.viol(sg, d, case)
+
+
 def worker(k: int, n: int, thorough: bool, seed: int) -> Part:
     import logging
 
@@ -317,6 +374,8 @@ def worker(k: int, n: int, thorough: bool, seed: int) -> Part:
             if not KR.verify_keyring_signature(src, pw):
                 part.viol("genuine-keyring-rejected", f"shipped {fname}", ["shipped", fname])
             tamper_suite(files, root, pw, part, f"shipped-{fname}")
+        if k == 1 % n:
+            boundary_suite(files, part)
         # one genuine load and one tampered file with the real (un-memoised) key derivation
         if k == 0:
             memo_kdf(False)
@@ -343,7 +402,8 @@ def run(ctx: Ctx) -> None:
         f"be refused. For every {4 if ctx.thorough else 24}th of them and the 6 ETS exports shipped with the tests (whose signatures the reference reproduces): EVERY single mutation - per attribute: change first/middle/"
         "last character, append, delete, empty, over-long value, rename, delete, swap values; per element: add attribute, rename, add child, delete, duplicate, swap with sibling, move into previous sibling, move up - "
         "plus emptied/truncated/extended/bit-flipped signatures (alone and with a content change) and wrong passwords must fail verification and loading; a change to the unsigned xmlns must not. All files share "
-        "one path, so a verdict cached per path would show."
+        "one path, so a verdict cached per path would show. Boundaries: project names of 253/254/255 octets (ASCII and multi-byte), and 6 passwords with leading/trailing whitespace each tried exactly and in 4-5 "
+        "padded/stripped variants - through sync_load_keyring and the asynchronous load_keyring."
     )
     ctx.bounds = {"models": len(ms), "shipped_exports": len(SHIPPED)}
     ctx.assumptions = ["hash_keyring_password (PBKDF2, 65 536 iterations) is memoised during the sweep; one genuine and one tampered load run with the real function"]
@@ -355,7 +415,9 @@ def replay(case: Any) -> list[tuple[str, str]]:
     files = Files()
     memo_kdf(True)
     try:
-        if case[0] == "model":
+        if case[0] == "boundary":
+            boundary_suite(files, p)
+        elif case[0] == "model":
             m = models()[case[1]]
             root = W.build(m, m["password"])
             path = files.write(root)
